@@ -79,6 +79,21 @@ Proof.
 Qed.
 
 (* ---------- remove_fully: unlink the entry's content, unlink the bucket ---------- *)
+Lemma run_unlink_if_present l0 f :
+  run (unlink_if_present l0) f =
+  match lookup f l0 with
+  | Some Dir => (Err EIoErr, f)
+  | Some _ => (Ok tt, remove f l0)
+  | None => (Ok tt, f)
+  end.
+Proof. unfold unlink_if_present. cbn [run]. unfold exec. destruct (lookup f l0) as [[d| |t]|]; reflexivity. Qed.
+
+Lemma run_unlink_if_present_frame l0 f l : l <> l0 -> lookup (snd (run (unlink_if_present l0) f)) l = lookup f l.
+Proof.
+  intros Hl. rewrite run_unlink_if_present. destruct (lookup f l0) as [[d| |t]|]; cbn [snd]; try reflexivity;
+    apply lookup_remove_neq; congruence.
+Qed.
+
 Lemma run_unlink_frame l0 f l : l <> l0 -> lookup (snd (run (step_ok (Unlink l0)) f)) l = lookup f l.
 Proof.
   intros Hl. rewrite run_unlink. destruct (lookup f l0) as [[d| |t]|]; cbn [snd]; try reflexivity;
@@ -95,9 +110,9 @@ Proof.
   cbn [fst] in Hc. destruct r as [[m|]|e| | |]; try reflexivity.
   - unfold rbind. rewrite run_bind. unfold with_cpath. destruct (content_path (m_sri m)) as [cp|] eqn:Ecp; [|reflexivity].
     specialize (Hc m cp eq_refl Ecp).
-    destruct (run (step_ok (Unlink (InCache cp))) f) as [r1 f1] eqn:E1.
+    destruct (run (unlink_if_present (InCache cp)) f) as [r1 f1] eqn:E1.
     assert (lookup f1 l = lookup f l) as H1.
-    { change f1 with (snd (r1, f1)). rewrite <- E1. apply run_unlink_frame. exact Hc. }
+    { change f1 with (snd (r1, f1)). rewrite <- E1. apply run_unlink_if_present_frame. exact Hc. }
     destruct r1; cbn [run]; try exact H1. rewrite <- H1. apply run_unlink_frame. exact Hb.
   - unfold rbind. rewrite run_bind. cbn [run]. apply run_unlink_frame. exact Hb.
 Qed.
@@ -116,7 +131,7 @@ Proof.
   assert (run (remove_fully hash key) f
           = (Ok tt, remove (remove f (InCache cp)) (InCache (bucket_path hash key)))) as Hrun.
   { unfold remove_fully. unfold rbind at 1. rewrite run_bind, (find_run hash f key Hinv), Habs.
-    unfold rbind. rewrite run_bind. unfold with_cpath. rewrite Hcp, run_unlink, Hnd.
+    unfold rbind. rewrite run_bind. unfold with_cpath. rewrite Hcp, run_unlink_if_present, Hnd.
     assert (lookup (remove f (InCache cp)) (InCache (bucket_path hash key)) = lookup f (InCache (bucket_path hash key))) as Hb.
     { apply lookup_remove_neq. congruence. }
     assert (exists d, lookup f (InCache (bucket_path hash key)) = Some (File d)) as [d Hd].
@@ -128,6 +143,29 @@ Proof.
   - split; [apply lookup_remove_eq|]. split.
     + unfold abs_idx, bucket_bytes. rewrite lookup_remove_eq. reflexivity.
     + intros l H1 H2. rewrite !lookup_remove_neq by congruence. reflexivity.
+Qed.
+
+(* the entry's content is already gone (shared with a key removed earlier, removed by address, or an earlier attempt
+   of this call that failed later): the full removal still deletes the entry *)
+Theorem remove_fully_content_gone f key m cp :
+  IndexInv f -> abs_idx hash f key = Some m -> content_path (m_sri m) = Some cp ->
+  lookup f (InCache cp) = None ->
+  let f' := snd (run (remove_fully hash key) f) in
+  fst (run (remove_fully hash key) f) = Ok tt /\
+  abs_idx hash f' key = None /\
+  (forall l, l <> InCache (bucket_path hash key) -> lookup f' l = lookup f l).
+Proof.
+  intros Hinv Habs Hcp Hnone f'.
+  assert (run (remove_fully hash key) f = (Ok tt, remove f (InCache (bucket_path hash key)))) as Hrun.
+  { unfold remove_fully. unfold rbind at 1. rewrite run_bind, (find_run hash f key Hinv), Habs.
+    unfold rbind. rewrite run_bind. unfold with_cpath. rewrite Hcp, run_unlink_if_present, Hnone.
+    assert (exists d, lookup f (InCache (bucket_path hash key)) = Some (File d)) as [d Hd].
+    { destruct (bucket_lookup hash f key Hinv) as [Hn|[d [Hd _]]]; [|eauto].
+      unfold abs_idx, bucket_bytes in Habs. rewrite Hn in Habs. discriminate. }
+    rewrite run_unlink, Hd. reflexivity. }
+  subst f'. rewrite Hrun. cbn [fst snd]. split; [reflexivity|]. split.
+  - unfold abs_idx, bucket_bytes. rewrite lookup_remove_eq. reflexivity.
+  - intros l H1. apply lookup_remove_neq. congruence.
 Qed.
 
 (* keys living in other buckets keep their lookups *)
